@@ -556,6 +556,16 @@ def _map_len(ex, st, args, dest_ty, func, where):
     return VInt(n, "usize")
 
 
+def _path_cmp(ex, st, args, dest_ty, func, where):
+    """comparisons of PathBuf values (ids in Path order): eq/ne/lt/le/gt/ge/cmp"""
+    a, b = _key_id(ex, st, args[0]), _key_id(ex, st, args[1])
+    op = func.rsplit("::", 1)[1]
+    if op == "cmp":
+        return VEnum("Ordering", simp(z3.If(a < b, I(-1), z3.If(a == b, I(0), I(1)))), {-1: [], 0: [], 1: []})
+    t = {"eq": a == b, "ne": a != b, "lt": a < b, "le": a <= b, "gt": a > b, "ge": a >= b}[op]
+    return VBool(simp(t))
+
+
 def _path_deref(ex, st, args, dest_ty, func, where):
     v = args[0]
     while isinstance(v, VRef):
@@ -678,6 +688,7 @@ def install_collections(ex, universe, sort_cap):
     A(r"^BTreeMap::<.*>::(len|is_empty)$", _map_len, "BTreeMap::len / is_empty")
     A(r"^<PathBuf as (std::ops::)?Deref>::deref$", _path_deref, "<PathBuf as Deref>::deref (paths are ids)")
     A(r"^<PathBuf as Clone>::clone$", _path_clone, "<PathBuf as Clone>::clone")
+    A(r"^<&*PathBuf as Partial(Eq|Ord)(<&*PathBuf>)?>::(eq|ne|lt|le|gt|ge)$|^<&*PathBuf as Ord>::cmp$", _path_cmp, "PathBuf comparisons (Path order = id order)")
     A(r"^<Vec<PathBuf> as Default>::default$|^<Vec<\(PathBuf, .*\)> as Default>::default$|^Vec::<\(?PathBuf.*>::new$", _vec_default, "Vec<PathBuf>::default/new")
     A(r"^<usize as Default>::default$", _usize_default, "usize::default")
     A(r"^Vec::<PathBuf>::push$", _vec_push_scalar, "Vec<PathBuf>::push")
